@@ -1,4 +1,5 @@
 import Driver.Parse
+import Driver.Proxy
 import FpVerif.Spec.JA3
 import FpVerif.Spec.Capture
 import FpVerif.Spec.H2Fp
@@ -69,9 +70,6 @@ def capSpec (stream : Bytes) (cuts : List String) : String := Id.run do
   match Fp.Spec.Capture.captured delivered with
   | some b => return s!"ok:{b.length}:md5of:{toHex b} up=ok"
   | none => return "none up=ok"
-
-def dashList (v : String) (sep : String) : List String :=
-  if v = "" || v = "-" then [] else v.splitOn sep
 
 def parseSettings (v : String) : Option (List (Nat × Nat)) :=
   (dashList v ";").mapM fun e => match e.splitOn "." with
@@ -180,6 +178,10 @@ def handle (cmd : String) (args : List String) : String :=
     | _, _ => "bad-op"
   | "h2fp", toks => (h2fpRun true toks).getD "bad-op"
   | "h2fpm", toks => (h2fpRun false toks).getD "bad-op"
+  | "rw", toks => (rwModel toks).getD "bad-op"
+  | "rwspec05", toks => (rwSpec05 toks).getD "bad-op"
+  | "rwspec09", toks => (rwSpec09 toks).getD "bad-op"
+  | "rwspec15", toks => (rwSpec15 toks).getD "bad-op"
   | "h2marshal", toks => (h2marshal toks).getD "bad-op"
   | _, _ => "bad-op"
 
